@@ -151,7 +151,7 @@ impl Property for P {
     }
     fn cases(tier: Tier) -> u64 {
         match tier {
-            Tier::Quick => 400_000,
+            Tier::Quick => 1_600_000,
             Tier::Thorough => 20_000_000,
         }
     }
@@ -161,4 +161,17 @@ impl Property for P {
     fn health() -> Vec<(&'static str, f64)> {
         vec![("blank_line", 0.2), ("cr", 0.1), ("no_final_newline", 0.1)]
     }
+}
+
+pub fn decode(data: &[u8]) -> Case {
+    let mut r = crate::fuzzdec::Reader::new(data);
+    let mode = r.u8();
+    let p = PREFIXES[r.pick(PREFIXES.len())].to_string();
+    const T: &[&str] = &[" ", "\t", " ", "a", "\n", "\r\n", "\u{a0}", "\u{2003}", "b c", "\u{c}", "\r", "  ", "\n", "x", "\t", "\n"];
+    let text = if mode & 2 == 2 {
+        r.rest().iter().map(|b| T[*b as usize % T.len()]).collect()
+    } else {
+        crate::fuzzdec::text(mode, r.rest())
+    };
+    Case { text, prefix: p }
 }
